@@ -1013,6 +1013,10 @@ MANIFEST = dict(
     'precoders on one solver, re-initialised channel with another antenna '
     'split) are included.',
     note='floats as exact reals; |x| as a defined atom; denominators assumed '
-    'non-zero; sizes bounded (K<=3, antennas<=2, streams<=2)',
+    'non-zero; sizes bounded (K<=3, antennas<=2, streams<=2)'
+    ' Concrete data-representation / scale / boundary probes of the real'
+    ' code (dtype, container and memory-layout variants, argument'
+    ' immutability, magnitudes) accompany the symbolic runs; they are'
+    ' differential runs, not solver verdicts.',
     technique='symbolic execution on object arrays + polynomial normal form '
     '+ linearised QF_LRA prover (z3)')
